@@ -182,7 +182,8 @@ def padded_containers():
 
 def inline_floats():
     """Floats met inside a line (at the start of the line, after text, too wide to sit beside the text so that they
-    wait for the next line, two in one line) and long enough to continue on following pages."""
+    wait for the next line, two in one line, inside nested inline boxes with end borders that are split several times
+    while the line is built) and long enough to continue on following pages."""
     for where, flines, width, height in itertools.product(('start', 'after', 'two'), (3, 9, 16), (50, 190), (50, 80)):
         w = Words()
 
@@ -201,6 +202,25 @@ def inline_floats():
             body += f'<p>{w.take(1)[0]} {fl()} {w.take(1)[0]} {fl()} {w.take(1)[0]}</p>'
         body += ''.join(f'<p>{w.take(1)[0]}</p>' for _ in range(4 * flines))
         yield f'inline-float-{where}-l{flines}-w{width}-H{height}', page(body, 200, height), w.groups
+    for nest, flines, pwidth, height in itertools.product(('em-in-border', 'border', 'padding-deep'), (4, 7, 12),
+                                                          (80, 120), (40, 60)):
+        w = Words()
+        float_words = ' '.join(w.take(1, 'oof', ('float',))[0] for _ in range(flines))
+        ids = [i for g in w.groups[-flines:] for i in g['words']]
+        del w.groups[-flines:]
+        w.groups.append({'kind': 'oof', 'words': ids, 'ctx': ['float']})
+        fl = f'<span style="float:left;width:30px">{float_words}</span>'
+        a1, a2 = w.take(1)[0], w.take(1)[0]
+        if nest == 'em-in-border':
+            inner = f'<span style="border-right:2px solid">{a1} <em>{fl} {a2}</em></span>'
+        elif nest == 'border':
+            inner = f'<span style="border-right:2px solid">{a1} {fl} {a2}</span>'
+        else:
+            inner = (f'<span style="padding-right:3px"><b style="padding-right:3px">{a1} <em>{fl} {a2}</em></b>'
+                     f'</span>')
+        tail = ' '.join(w.take(1)[0] for _ in range(9))
+        body = f'<p>{inner} {tail}</p>' + ''.join(f'<p>{w.take(1)[0]}</p>' for _ in range(2 * flines))
+        yield f'inline-float-nest-{nest}-l{flines}-W{pwidth}-H{height}', page(body, pwidth, height), w.groups
 
 
 def absolutes_long():
